@@ -184,6 +184,20 @@ def check_fields(case, acc, base):
                 problems[-1] = (problems[-1][0] + '(rewrite)', 'second write after the atom ids were changed in place: ' + problems[-1][1])
         except Exception as err:   # pylint: disable=broad-except
             problems.append(('%s:exception(rewrite)' % fmt, 'second write raised %r' % (err,)))
+    if not problems:
+        # history, continued: the atom ids are now numbered from 0 in node order (a legitimate id that is falsy)
+        for mol in system.molecules:
+            for pos, key in enumerate(list(mol.nodes)):
+                mol.nodes[key]['atomid'] = pos
+        written3 = [dict(mol.nodes[k]) for mol in system.molecules for k in mol.nodes]
+        try:
+            mols3 = roundtrip(system, base, fmt)
+            read3 = [dict(mol.nodes[k]) for mol in mols3 for k in mol.nodes]
+            compare_atoms(fmt, written3, read3, problems)
+            if problems:
+                problems[-1] = (problems[-1][0] + '(ids-from-0)', 'atom ids numbered from 0: ' + problems[-1][1])
+        except Exception as err:   # pylint: disable=broad-except
+            problems.append(('%s:exception(ids-from-0)' % fmt, 'write with atom ids from 0 raised %r' % (err,)))
     over = (case['alen'] > (4 if fmt == 'pdb' else 5) or case['rlen'] > (3 if fmt == 'pdb' else 5)
             or len(str(case['resid'])) >= (4 if fmt == 'pdb' else 5) or any(abs(c) >= 99 for c in case['xyz']))
     acc.case(nontrivial=over, outcome=(fmt, tuple(p[0] for p in problems), over),
@@ -291,6 +305,48 @@ def check_counts(case, acc, base):
         acc.violation('gro:exception', 'round trip raised %r' % (err,), full)
 
 
+def writer_options(item, acc, base):
+    """write_pdb with every combination of its switches: the atoms always come back as written; the bonds come back exactly when
+    CONECT records were asked for; integer charges come back exactly when they were not omitted."""
+    from vermouth.pdb.pdb import write_pdb, read_pdb
+    conect, omit_charges, nan_missing = item
+    case = {'layer': 'pdb-writer-options', 'conect': conect, 'omit_charges': omit_charges, 'nan_missing_pos': nan_missing}
+
+    def attrs_of(gi):
+        return {'atomname': 'C%d' % gi, 'resname': 'GLY', 'resid': gi // 2 + 1, 'chain': 'A', 'charge': [1, 0, -2, 0, 1][gi],
+                'position': [0.1 * gi, 0.2, 0.3]}
+    system, _ = build_system([3, 2], attrs_of, [(0, 1), (1, 2), (3, 4)])
+    written = [dict(mol.nodes[k]) for mol in system.molecules for k in mol.nodes]
+    path = os.path.join(base, 'opts.pdb')
+    problems = []
+    try:
+        write_pdb(system, path, conect=conect, omit_charges=omit_charges, nan_missing_pos=nan_missing, defer_writing=False)
+        mols = read_pdb(path)
+        os.remove(path)
+    except Exception as err:   # pylint: disable=broad-except
+        acc.case(outcome='exc')
+        acc.violation('pdb:options-exception', 'write_pdb(conect=%s, omit_charges=%s, nan_missing_pos=%s) round trip raised %r' % (
+            conect, omit_charges, nan_missing, err), case)
+        return
+    read = [dict(mol.nodes[k]) for mol in mols for k in mol.nodes]
+    compare_atoms('pdb', written, read, problems)
+    if not problems:
+        order = [node['atomname'] for node in read]
+        bonds = sorted(tuple(sorted((mol.nodes[a]['atomname'], mol.nodes[b]['atomname']))) for mol in mols for a, b in mol.edges)
+        want = [('C0', 'C1'), ('C1', 'C2'), ('C3', 'C4')] if conect else []
+        if bonds != want:
+            problems.append(('pdb:options-bonds', 'write_pdb(conect=%s, omit_charges=%s): bonds read back %r, written %r' % (
+                conect, omit_charges, bonds, want)))
+        charges = [int(node.get('charge') or 0) for node in read]
+        want_charges = [0] * 5 if omit_charges else [1, 0, -2, 0, 1]
+        if charges != want_charges and not problems:
+            problems.append(('pdb:options-charges', 'write_pdb(omit_charges=%s): charges read back %r, expected %r (atoms %r)' % (
+                omit_charges, charges, want_charges, order)))
+    acc.case(nontrivial=True, outcome=('opts', conect, omit_charges, nan_missing, tuple(p[0] for p in problems)))
+    for sig, desc in problems[:1]:
+        acc.violation(sig, desc, case)
+
+
 def gro_sequence(seq, acc, base):
     """Several GRO files of different layouts (coordinate column width = precision + 1, with / without velocities) written
     and read back one after another in ONE process: every read-back is judged on its own."""
@@ -353,6 +409,14 @@ def work(task):
     common.bind_repo()
     kind, cases = task
     acc = Acc()
+    if kind == 'writer-options':
+        base = tempfile.mkdtemp(prefix='verif_c16o_', dir='/dev/shm' if os.path.isdir('/dev/shm') else None)
+        try:
+            for item in cases:
+                writer_options(item, acc, base)
+        finally:
+            shutil.rmtree(base, ignore_errors=True)
+        return acc
     if kind == 'gro-sequence':
         base = tempfile.mkdtemp(prefix='verif_c16s_', dir='/dev/shm' if os.path.isdir('/dev/shm') else None)
         try:
@@ -425,6 +489,10 @@ def run(ctx):
     for part in common.pmap(work, [('gro-sequence', [seq]) for seq in gro_sequences(ctx.tier)], fresh=True):
         acc += part
     ctx.layer('gro-read-sequences', acc)
+    acc = Acc()
+    for part in common.pmap(work, [('writer-options', [item]) for item in itertools.product((True, False), repeat=3)]):
+        acc += part
+    ctx.layer('pdb-writer-options', acc)
 
 
 def replay(case):
@@ -434,7 +502,9 @@ def replay(case):
     try:
         case = dict(case)
         layer = case.pop('layer')
-        if layer == 'gro-sequence':
+        if layer == 'pdb-writer-options':
+            writer_options((case['conect'], case['omit_charges'], case['nan_missing_pos']), acc, base)
+        elif layer == 'gro-sequence':
             gro_sequence(tuple(tuple(x) for x in case['sequence']), acc, base)
         elif layer == 'fields':
             check_fields(case, acc, base)
